@@ -8,6 +8,7 @@ RULE = ("random encoder trees built from the REAL combinators (tuples of arity 1
         "sizes crossing 127/128, 255/256, 65535/65536 at depth <= 4, 3 modes. Oracles: reported encoded_len == number of octets written "
         "(on the implementation's own answer) and octets == reference encoder Spec.encode (identifier octets, minimal definite length, parts in "
         "order; CER constructed: 80 … 00 00). non-trivial = tree with at least one constructed node.")
+CROSS = {'C04': 2000, 'C16': 1500}   # cross streams: samples of neighbouring properties' request streams (outcomes, model <-> implementation)
 EXHAUSTIVE = {"quick": False, "thorough": False}
 EXHAUSTIVE_NOTE = {"quick": "", "thorough": ""}
 ASSUMPTIONS = ["documented unimplemented!() CER string encoders and the Captured mode-mismatch assertion are excluded",
